@@ -165,11 +165,13 @@ func RunRefErr(p *P, maxSteps int) (run.Outcome, error) {
 	lg := &run.Logger{}
 	g := run.Globals(p.Globals, lg)
 	in := &ref.Interp{Globals: g, Modules: p.G.Modules, MaxSteps: maxSteps}
-	res := in.Run(p.G.Body, CopyArgs(p.Args))
+	hostArgs := CopyArgs(p.Args)
+	res := in.Run(p.G.Body, hostArgs)
 	var out run.Outcome
 	if res.Abort != nil {
 		return out, res.Abort
 	}
+	out.ArgsAfter = canon.Value(ugo.Array(hostArgs))
 	out.Log = lg.Log
 	gc := ugo.Map{}
 	for k, v := range g {
@@ -201,7 +203,12 @@ func RunVM(p *P, opts ugo.CompilerOptions, ro run.Opts) (run.Outcome, *ugo.Bytec
 	if ro.Timeout == 0 {
 		ro.Timeout = 5 * time.Second
 	}
-	return run.Exec(bc, g, lg, CopyArgs(p.Args), ro), bc, nil, ""
+	hostArgs := CopyArgs(p.Args)
+	o := run.Exec(bc, g, lg, hostArgs, ro)
+	if !o.TimedOut {
+		o.ArgsAfter = canon.Value(ugo.Array(hostArgs))
+	}
+	return o, bc, nil, ""
 }
 
 // FeatureKey renders the feature set for distinctness / class keys.
